@@ -256,6 +256,11 @@ func RunBatch(t *testing.T, bs BatchSpec) BatchResult {
 		total += f.Weight
 	}
 	spent := make([]float64, len(fams))
+	for k := range fams {
+		// families with expensive runs (hundreds of megabytes each) start
+		// staggered over the workers instead of all at once
+		spent[k] = float64(fams[k].Cost) * float64(bs.Worker) / 2
+	}
 	acts := map[uint64]struct{}{}
 	nontriv := map[uint64]struct{}{}
 	states := map[uint64]struct{}{}
